@@ -88,6 +88,8 @@ class Prog:
                 calls.append('\tfmt.Println("R%02d", %s.%s(args))' % (i, al, fn))
         for rel, p in self.pkgs.items():
             fns = dict(p["files"])
+            if rel != "" and not fns:
+                fns[self.file_of(rel, 0)] = ["var placeholder%s = 1\n" % self.go]   # a package that is imported must exist
             if rel == "":
                 fn0 = self.file_of("", 0)
                 fns.setdefault(fn0, [])
